@@ -2,6 +2,7 @@ import GoRedisModel.Model.Wire
 import GoRedisModel.Model.ParserImpl
 import GoRedisModel.Model.Show
 import GoRedisModel.Proofs.Interleave
+import GoRedisModel.Model.RefStore
 /-! Line-protocol driver: one case per input line, one canonical result per output line.
 Built as the core-only executable `modeldriver`; the definitions it runs are the ones the theorems are about. -/
 open GoRedis
@@ -48,6 +49,7 @@ def splitSemi : List String → List (List String)
 
 def parseResult (ts : List String) : Option HRes :=
   match ts with
+  | "c" :: _ :: rest => parseResult rest     -- an expected-call annotation (used by the harness' double only)
   | "r" :: rest => (parseMsgToks rest).map fun (m, _) => { msg := m }
   | ["e", h] => some { err := some (unhex h) }
   | "re" :: h :: rest => (parseMsgToks rest).map fun (m, _) => { msg := m, err := some (unhex h) }
@@ -143,6 +145,70 @@ def runSysCase (ts : List String) : String :=
   let s : Sys := { srv := srv, conns := List.replicate n (some { authorized := !pw.isSome }), script := script }
   String.intercalate " " (runSchedule pf s (parseSchedule (secs.getD 3 [])))
 
+def globAlphabet : Bytes := b!"ab*?.+(|$"
+
+/-- all words over the alphabet with length ≤ n, shortest first, in the harness' order -/
+def wordsUpTo (alpha : Bytes) : Nat → List Bytes × List Bytes
+  | 0 => ([[]], [[]])
+  | n+1 =>
+    let (all, frontier) := wordsUpTo alpha n
+    let next := frontier.flatMap fun w => alpha.map fun c => w ++ [c]
+    (all ++ next, next)
+
+def packBits (bits : List Bool) : String :=
+  let padded := bits ++ List.replicate ((4 - bits.length % 4) % 4) false
+  let rec go : List Bool → List Char
+    | a :: b :: c :: d :: rest =>
+      hexDigit ((if a then 8 else 0) + (if b then 4 else 0) + (if c then 2 else 0) + (if d then 1 else 0)) :: go rest
+    | _ => []
+  toString padded.length ++ ":" ++ String.ofList (go padded)
+
+def digitsNat (d : Bytes) : Option Nat :=
+  if d.isEmpty then none else d.foldl (fun acc b => acc.bind fun v => if 48 ≤ b ∧ b ≤ 57 then some (v * 10 + (b.toNat - 48)) else none) (some 0)
+
+/-- score tokens of the exactly representable pool: `-?digits(.5)?`, `inf`, `+inf`, `-inf` -/
+def parseScoreTok (t : Bytes) : Option Bound :=
+  if t = b!"inf" || t = b!"+inf" then some .posInf
+  else if t = b!"-inf" then some .negInf
+  else
+    let (neg, body) := match t with | 45 :: r => (true, r) | r => (false, r)
+    let (ip, half) := if body.length ≥ 2 ∧ body.drop (body.length - 2) = b!".5" then (body.take (body.length - 2), true) else (body, false)
+    match digitsNat ip with
+    | none => none
+    | some v => let h : Int := (v : Int) * 2 + (if half then 1 else 0); some (.fin (if neg then -h else h))
+
+def runXServe (ts : List String) : String :=
+  let secs := splitBar ts
+  let stream := (secs.getD 1 []).map unhex |>.flatten
+  let floats := parseFloatTable (secs.getD 2 [])
+  let pf : FloatOracle := fun tok => floats.lookup tok
+  let sc : ScoreTable := fun bits => (floats.find? fun p => p.2 == bits).bind fun p => parseScoreTok p.1
+  let evs := serveLoopH pf (refHandle sc) (stream.length + 1) { config := [(b!"port", b!"6379")] } { authorized := true } stream ([] : Store)
+  String.intercalate " " ((showTrace false (evs ++ [.close]) {}).filter fun t => !t.startsWith "hc:")
+
+def showRes (r : HRes) : String :=
+  match r.err with
+  | some t => (match r.msg with
+      | .absent => s!"e {hex t}"
+      | m => s!"re {hex t} {showMsg m}")
+  | none => s!"r {showMsg r.msg}"
+
+/-- `prep c12prog | <stream> | <floats> | <extra>`: run the program against the reference store and emit the
+`serve` case whose script is the sequence of results the reference store gave -/
+def prepC12 (ts : List String) : String :=
+  let secs := splitBar ts
+  let streamToks := secs.getD 1 []
+  let stream := (streamToks.map unhex).flatten
+  let floats := parseFloatTable (secs.getD 2 [])
+  let pf : FloatOracle := fun tok => floats.lookup tok
+  let sc : ScoreTable := fun bits => (floats.find? fun p => p.2 == bits).bind fun p => parseScoreTok p.1
+  let h : HCall → (Store × List (HCall × HRes)) → HRes × (Store × List (HCall × HRes)) := fun c st =>
+    let (r, s') := refHandle sc c st.1
+    (r, (s', (c, r) :: st.2))
+  let run := serveLoopFinal pf h (stream.length + 1) { config := [(b!"port", b!"6379")] } { authorized := true } stream (([] : Store), ([] : List (HCall × HRes)))
+  let script := String.intercalate " ; " (run.2.reverse.map fun p => s!"c {showCall p.1} {showRes p.2}")
+  s!"serve - | {String.intercalate " " streamToks} | {script} | {String.intercalate " " (secs.getD 2 [])} | {String.intercalate " " (secs.getD 3 [])}"
+
 def handleLine (toks : List String) : String :=
   match toks with
   | "enc" :: ts =>
@@ -165,6 +231,14 @@ def handleLine (toks : List String) : String :=
     | none => "bad-case"
   | "serve" :: ts => runServeCase (parseServeCase ts)
   | "sys" :: ts => runSysCase ts
+  | "xserve" :: ts => runXServe ts
+  | "prep" :: "c12prog" :: ts => prepC12 ts
+  | ["globall", n, ph] =>
+    let pat := unhex ph
+    packBits (((wordsUpTo globAlphabet (n.toNat?.getD 0)).1).map (globMatch pat))
+  | "glob" :: ph :: ks =>
+    let pat := unhex ph
+    packBits (ks.map fun k => globMatch pat (unhex k))
   | "chunks" :: ts => streamOutcome ((afterBar ts).map unhex) 1048576
   | "hostile" :: hs => streamOutcome (hs.map unhex) 1048576
   | ["ctor", "int", n] =>
